@@ -44,6 +44,7 @@ def r_norm(P, R):
         P, R, 'dd.mdd.MDD' if R.prop == 'C15' else 'dd.bdd.BDD')
     if R.prop == 'C15':
         models.mdd_cofactor_model(P, R)
+        models.mdd_operations_model(P, R)
     if n is not None:
         R.floor('R-NORM requests of find_or_add', n, 100)
 r_norm.NAME = 'R-NORM'
@@ -629,6 +630,8 @@ def undeclare_rebuild(P, R):
     (rules/models.py), not by the shape of its comprehensions."""
     from . import models
     models.undeclare_model(P, R)
+    if R.prop in ('C14', 'C11', 'C12'):
+        models.declarations_model(P, R)
 
 
 def add_var_maps(P, R):
